@@ -13,14 +13,28 @@ RULE = ("cases = a fixed corpus, then (a) straight-line programs over 2-5 regist
         "the product, unit/inv/divides) and MultiDeg cases; (c) HPoly cases. Sizes are bounded by generator-side "
         "shadows (<= 64 terms, machine integers never overflow). A case is non-trivial when it is a program whose "
         "output contains at least one non-zero polynomial with >= 2 terms or a cancellation to 0 after a non-zero "
-        "value, or a monomial/MultiDeg/HPoly case with a non-unit operand; distinct = distinct case lines; program op `powz d a n` calls Pow<i32>, Pow<i64>, Pow<isize> with a signed exponent (negative exponents go through inv().unwrap(); a panic prints P and leaves the register unchanged)")
+        "value, or a monomial/MultiDeg/HPoly case with a non-unit operand; distinct = distinct case lines; program op `powz d a n` calls Pow<i32>, Pow<i64>, Pow<isize> with a signed exponent (negative exponents go through inv().unwrap(); a panic prints P and leaves the register unchanged); "
+        "SINGLE-TERM CONSTRUCTORS (program ops whose result is used exactly as returned, without += / collect in between): "
+        "`term d x@c` = From<(X, R)> (PolyBase::from((mono, c)) / (mono, c).into() / PolyBase::from(Lc::from((mono, c))), "
+        "Lc::from((gen, c))), `dterm d x a b` = the same on (x, a - b), `gen d x` = From<X>, `const d c` = "
+        "PolyBase::from_const, `pstr d s` = PolyBase::from_str / str::parse on an integer literal (0, 00, -0, F_3: 3 6 -3 9, "
+        "small and BigInt-sized values) or, for Poly / LPoly, on a monomial string x, x^d, x^{d}; coefficients are arbitrary, "
+        "literally zero (0, 0/k, 0:0), zero only after reduction (F_3: 3, 6, -3, -6, 9) or a difference a - a; about 2/5 of "
+        "these ops build a zero value; each is followed by the full observation (sorted iter() terms, nterms, is_zero, "
+        "is_mono, is_const, is_one, const_term, lead_term, the public-API check that no zero coefficient is stored) and "
+        "three templates compare the result with the never-written zero register (==), carry it through `* 1`, neg, "
+        "clone, *, +, pow, and check additivity (from((x,a)) + from((x,-a)) == from((x,0)), from_const(a) + from_const(-a) "
+        "== from_const(0), parse(l) + parse(-l) == parse(0)); they occur in every template round (all 7 rings x 9 types), "
+        "in 2/5 of the random `set` positions and in 1/6 of the initial loads")
 ASSUME = ["coefficient rings are those of C14 (i64/BigInt/Ratio/FF<3>/GaussInt arithmetic is taken as exact ring "
           "arithmetic; the model uses Z, reduced fractions, residues mod 3 and pairs; i64 overflow is avoided by the "
           "generator, not modelled)",
           "usize/isize exponent overflow is not modelled (exponents are unbounded N / Z; generated exponents stay small)",
           "hash-map iteration order is unobservable: outputs are sorted term lists; any_term() is not compared",
           "Pow<&usize> of i64/BigInt (num-traits, num-bigint) is the mathematical power",
-          "Display / FromStr / serde / TeX of polynomials are not covered; div_rem of Poly over a field belongs to C15"]
+          "Display / serde / TeX of polynomials are not covered; FromStr only on integer literals (all types) and on the "
+          "one-variable monomial strings x, x^d, x^{d} (the string syntax itself is interpreted by the driver, the value "
+          "is the model's p_from_const / p_from_mono); div_rem of Poly over a field belongs to C15"]
 
 MARKERS = ("FORMS-DIFFER", "ZERO-STORED", "NTERMS-DIFFER", "COEFF-DIFFER", "EQ-BROKEN", "ZERO-EXP-STORED",
            "ORDER-INCONSISTENT", "TOP-PANIC")
